@@ -328,6 +328,18 @@ def corrupt(lexemes, starts, tape, n, late=False, ml=False):
                 return False
             idx = [k for k, t in enumerate(lex) if t.isascii() and t.replace("_", "a").isalnum() and
                    not t[0].isdigit() and not _after_eq(k)]
+            # identifiers inside the argument list of an operator whose name contains `=` (`operator==`): the place
+            # where defect F25 re-read the failed member as a variable with an initialiser -- aimed at half the time
+            def _in_eq_operator_args(k):
+                j = k - 1
+                while j >= 0 and lex[j] not in (";", "{", "}"):
+                    if lex[j].startswith("operator") and "=" in lex[j]:
+                        return True
+                    j -= 1
+                return False
+            aimed = [k for k in idx if _in_eq_operator_args(k)]
+            if aimed and pristine[0] and tape.bool(0.5, "aim-at-operator-arguments"):
+                idx = aimed
             if idx and pristine[0]:
                 k = idx[tape.choose(len(idx), "which-identifier")]
                 ch = tape.pick(FOREIGN_ALNUM, "foreign-char")
